@@ -69,6 +69,7 @@ def normalise_program(trees: Dict[str, ast.Module], pkgs: Set[str]) -> None:
             ho.yield_from_genexp(t)
             ho.bool_indexed_pairs(t)
             ho.genexp_for_loops(t)
+            ho.deferred_job_list(t)
             ho.for_break_else(t)
             ho.search_loop_to_any(t)
             ho.first_match_loops(t)
